@@ -312,11 +312,11 @@ fn run_pair<T: PairT>(steps: &[Step], line: &Value, e: &Embedding, pattern: usiz
                 let w = if pattern == 2 {
                     0.7 // C16: a constant second coordinate with a full mantissa
                 } else if pattern == 0 {
-                    [1.0, 0.0, 0.17, 2.5, 0.27][(pos + (v + 3) as usize) % 5]
+                    [1.0, 0.0, 0.17, 2.5, 0.27][(pos as i64 + v + 3).rem_euclid(5) as usize]
                 } else if pos < 2 {
                     0.0
                 } else {
-                    [0.5, 0.0, 3.0][(pos + (v + 3) as usize) % 3]
+                    [0.5, 0.0, 3.0][(pos as i64 + v + 3).rem_euclid(3) as usize]
                 };
                 pos += 1;
                 (e.x(v), w)
@@ -630,5 +630,44 @@ pub fn process_line(v: &Value, want_prop: &str, rep: &mut Report) {
     }
     for x in rep.violations.iter_mut().skip(kept_before) {
         x["line"] = v.clone();
+    }
+}
+
+
+/// Behaviours of Ingest.tla with chunks far beyond the TLC generator's bound (MaxChunk = 2): one or
+/// two collect / extend steps over 9 ... 200 observations in increasing, decreasing and random order,
+/// by value and by reference, through the three iterator shapes, then an add.  Blocked or unrolled
+/// collect / extend loops (8 lanes, blocks of 64, four at a time) have their edge cases only there.
+/// Every line goes through the same replay as the generated ones (`process_line`).
+pub fn direct_ingestlong(prop: &str, seed: u64, rep: &mut Report) {
+    use rand::{Rng, SeedableRng};
+    let mut rng = rand_xoshiro::Xoshiro256PlusPlus::seed_from_u64(seed ^ 0x696e67);
+    let shapes = ["exact", "lazy", "resuming"];
+    for &n in &[5usize, 8, 9, 10, 17, 18, 27, 63, 64, 65, 66, 128, 130, 200] {
+        for order in 0..3 {
+            let xs: Vec<i64> = match order {
+                0 => (0..n as i64).collect(),
+                1 => (0..n as i64).map(|i| n as i64 - i).collect(),
+                _ => (0..n).map(|_| rng.random_range(-400..400)).collect(),
+            };
+            for (si, sh) in shapes.iter().enumerate() {
+                for by_ref in [false, true] {
+                    let c = if by_ref { "collect_ref" } else { "collect_val" };
+                    let x = if by_ref { "extend_ref" } else { "extend_val" };
+                    let k = n / 3;
+                    let d3: Vec<i64> = [&xs[..], &[7][..]].concat();
+                    let d4: Vec<i64> = [&[-2][..], &xs[..]].concat();
+                    let lines = [
+                        json!({"steps": [[c, xs, sh]], "data": xs}),
+                        json!({"steps": [["new", [], "exact"], [x, xs, sh]], "data": xs}),
+                        json!({"steps": [[c, &xs[..k], shapes[(si + 1) % 3]], [x, &xs[k..], sh], ["add", [7], "exact"]], "data": d3}),
+                        json!({"steps": [["default", [], "exact"], ["add", [-2], "exact"], [x, &xs[..k], sh], [x, &xs[k..], shapes[(si + 2) % 3]]], "data": d4}),
+                    ];
+                    for l in &lines {
+                        process_line(l, prop, rep);
+                    }
+                }
+            }
+        }
     }
 }
